@@ -698,6 +698,22 @@ func FetchWithParallelRangeRequests(client *http.Client, rawURL string, cfg *Fet
 	if cfg == nil {
 		cfg = DefaultFetchConfig()
 	}
+	if cfg.ChunkSizeBytes <= 0 || cfg.MaxParallelRequests <= 0 {
+		// A partially filled FetchConfig leaves these at zero. A non-positive
+		// chunk size makes the chunk count meaningless (makeslice panic) and a
+		// non-positive parallelism limit leaves every chunk goroutine blocked
+		// on the semaphore forever (or panics in make). Treat them as "use the
+		// documented default", on a copy so the caller's struct is untouched.
+		c := *cfg
+		d := DefaultFetchConfig()
+		if c.ChunkSizeBytes <= 0 {
+			c.ChunkSizeBytes = d.ChunkSizeBytes
+		}
+		if c.MaxParallelRequests <= 0 {
+			c.MaxParallelRequests = d.MaxParallelRequests
+		}
+		cfg = &c
+	}
 
 	// Probe: HEAD request to check Content-Length and Accept-Ranges
 	headResp, err := client.Head(rawURL)
